@@ -109,6 +109,8 @@ def run(repo, chk):
 
     _effects_kept(chk, ns, span)
     _generator_constant_arms(repo, chk)
+    if chk.__class__.__name__ == 'Check':
+        _typed_tree_effects(repo, chk)
 
     # ---------------- W2 literal casts ---------------------------------------------------
     bad = []
@@ -220,6 +222,63 @@ def _generator_constant_arms(repo, chk):
                     bad = bad or f'IntToBool of {v} gives {val.data}: booleans are strictly 0 / 1'
             chk.expect(bad is None, 'C14.F8', f'eval_expr[{cast}] on an immediate, w={ws}', bad or '', GEN)
     chk.floor('constant cast evaluations', n, 60)
+
+
+def _typed_tree_effects(repo, chk):
+    """F10: whatever the typechecker folds, the calls the language evaluates are still in the typed tree.
+
+    A catalogue of small programs is parsed and typechecked by the checker's interpreter (hidverif.frontend); each places
+    calls of `tick()` / `flag()` / `b()` (functions that write) where the language always evaluates them - elements of array
+    literals whose length or element is taken, operands of operators with absorbing or neutral constant partners, casts,
+    array lengths, the evaluated side of short-circuit operators, live branches - or where it never does (dead side of a
+    short-circuit, dead branches).  The number of such calls in the typed tree of the entry function must lie between the
+    number always evaluated and the number written."""
+    chk.rule('C14.F10', 'typed-tree effect census: after typechecking, every call the language always evaluates is still there '
+                        '(array literal elements under .length / [i], operands next to absorbing constants, casts, live branches)')
+    from ..frontend import Frontend, typecheck, walk_nodes
+    fe = Frontend(repo)
+    prelude = 'int tick() { write(1); return 1; }\nbool flag() { write(2); return true; }\nbyte b() { write(3); return 7 is byte; }\n'
+    # (statement text, calls always evaluated, calls written)
+    cat = [
+        ('int n = [tick(), tick(), 7].length;', 2, 2), ('int n = [tick()].length;', 1, 1), ('int n = [flag(), true].length;', 1, 1),
+        ('int n = [b(), b()].length;', 2, 2), ('int n = [tick(), 2][0];', 1, 1), ('int n = [tick(), 2][1];', 1, 1),
+        ('int n = [2, tick()][0];', 1, 1), ('byte c = "abc"[tick()];', 1, 1), ('int n = [[tick()].length][0];', 1, 1),
+        ('int n = tick() * 0;', 1, 1), ('int n = 0 * tick();', 1, 1), ('int n = tick() - tick();', 2, 2), ('int n = tick() / 1;', 1, 1),
+        ('int n = tick() % 1;', 1, 1), ('int n = 0 / tick();', 1, 1), ('bool q = tick() == tick();', 2, 2), ('bool q = tick() < tick();', 2, 2),
+        ('bool q = flag() and false;', 1, 1), ('bool q = flag() or true;', 1, 1), ('bool q = true and flag();', 1, 1),
+        ('bool q = false or flag();', 1, 1), ('bool q = false and flag();', 0, 1), ('bool q = true or flag();', 0, 1),
+        ('bool q = not flag();', 1, 1), ('bool q = flag() == true;', 1, 1), ('bool q = tick() is bool;', 1, 1),
+        ('byte c = tick() is byte;', 1, 1), ('int n = b() is int;', 1, 1), ('int n = flag() is int;', 1, 1), ('int n = -tick();', 1, 1),
+        ('int n = +tick();', 1, 1), ('int n = - - tick();', 1, 1), ('int a[tick()];', 1, 1), ('int n = (tick() + 0) * 1;', 1, 1),
+        ('tick();', 1, 1), ('tick() + 1;', 1, 1), ('[tick()];', 1, 1), ('[tick(), 1].length;', 1, 1),
+        ('if (true) { tick(); }', 1, 1), ('if (false) { tick(); }', 0, 1), ('if (false) { } else { tick(); }', 1, 1),
+        ('while (false) { tick(); }', 0, 1), ('if (flag()) { }', 1, 1), ('if (flag() and false) { tick(); }', 1, 2),
+        ('for (int i = tick(); false; ) { }', 1, 1), ('int n = 1; n += tick() * 0;', 1, 1), ('int n = [1, 2][tick() * 0];', 1, 1),
+        ('write([tick(), 3].length);', 1, 1), ('writeln("" , );' if False else 'write("ab"[tick() * 0]);', 1, 1),
+    ]
+    names = {'tick', 'flag', 'b'}
+    n = 0
+    bad = []
+    for stmt, lo, hi in cat:
+        text = prelude + 'empty @is_you() { ' + stmt + ' }'
+        res = typecheck(fe, text)
+        n += 1
+        if isinstance(res, tuple):
+            bad.append((stmt, f'the catalogue program does not typecheck: {res[1]}: {res[2]}'))
+            continue
+        entry = [f for f in res.func_decls if getattr(f.name, 'base_name', '') == 'is_you']
+        if len(entry) != 1:
+            bad.append((stmt, 'entry function not found in the typed tree'))
+            continue
+        calls = [x for x in walk_nodes(entry[0].body) if type(x).__name__ == 'FuncCall' and getattr(x.func, 'base_name', None) in names]
+        if not lo <= len(calls) <= hi:
+            bad.append((stmt, f'{len(calls)} of the {hi} calls are left in the typed tree; {lo} are always evaluated'))
+    for stmt, why in bad[:6]:
+        chk.fail('C14.F10', f'`{stmt}`', why, 'hidc/ast/expressions.py')
+    if not bad:
+        chk.ok('C14.F10', 'effect census', f'{n} programs: every always-evaluated call survives typechecking')
+    chk.count('effect_census_programs', n)
+    chk.floor('effect census programs', n, 40)
 
 
 def _contains(obj, target, depth=0):
